@@ -4,6 +4,7 @@ import (
 	"bytes"
 	"context"
 	"fmt"
+	"io"
 	"os"
 )
 
@@ -114,6 +115,10 @@ func (st LString) Format(f fmt.State, c rune) {
 			b = b[:p]
 		}
 		formatBytes(f, b)
+	case 'q':
+		// %q is Lua quoting (lstrlib.c addquoted), not Go quoting: the result must read back
+		// through the Lua lexer as the same bytes. Flags, width and precision do not apply.
+		io.WriteString(f, luaQuote(string(st)))
 	default:
 		defaultFormat(string(st), f, c)
 	}
@@ -139,6 +144,28 @@ func formatBytes(f fmt.State, b []byte) {
 		f.Write(padding)
 		f.Write(b)
 	}
+}
+
+// luaQuote returns s between double quotes in a form the Lua lexer reads back as exactly s:
+// double quote, backslash and newline are preceded by a backslash, carriage return becomes \r
+// and the zero byte \000; every other byte is copied unchanged.
+func luaQuote(s string) string {
+	buf := make([]byte, 0, len(s)+2)
+	buf = append(buf, '"')
+	for i := 0; i < len(s); i++ {
+		switch c := s[i]; c {
+		case '"', '\\', '\n':
+			buf = append(buf, '\\', c)
+		case '\r':
+			buf = append(buf, '\\', 'r')
+		case 0:
+			buf = append(buf, '\\', '0', '0', '0')
+		default:
+			buf = append(buf, c)
+		}
+	}
+	buf = append(buf, '"')
+	return string(buf)
 }
 
 func (nm LNumber) String() string {
